@@ -79,7 +79,7 @@ _spent = [0.0]
 class _Budget:
     def __init__(self, max_steps):
         import time
-        self.left = max_steps if _spent[0] < BUDGET_S else min(max_steps, 40)
+        self.left = max_steps if _spent[0] < BUDGET_S else 0
         self.t0 = time.time()
 
     def ok(self):
